@@ -864,6 +864,12 @@ pub fn judge(trace: &Trace, ops: &[Op]) -> Verdict {
                     }
                     // first attempt: a non-empty FIFO prefix of what is pending
                     let n = items.len();
+                    if n > cap {
+                        v.c09.push(f(
+                            "C09/batch-larger-than-capacity",
+                            format!("the processor was handed {n} items at once although at most {cap} can be pending"),
+                        ));
+                    }
                     // hand-off order: what was already swapped out, then what is pending
                     let mut src: VecDeque<u64> = taken.drain(..).collect();
                     let n_taken = src.len();
